@@ -20,6 +20,9 @@ UNIT = dict(
         dict(id="C18.structure.an_explicit_shell_wins_over_the_environment", file="crates/cli/src/config.rs", count_in_fn="interpret_command_args",
              pattern="let shell = args.command.shell.clone().or_else(|| var(\"SHELL\").ok());", expect=1,
              why="--shell (including --shell=none: arguments byte for byte) is not overridden by $SHELL, which is only the fallback"),
+        dict(id="C18.structure.words_after_the_double_dash_get_their_at_sign_back", file="crates/cli/src/args.rs", count_in_fn="expand_args_up_to_doubledash",
+             pattern="while let Some(next) = todo.pop_front() { expanded_args.push(match next { Argument::PassThrough(arg) => arg, Argument::Path(path) => { let path = path.as_os_str(); let mut restored = OsString::with_capacity(path.len() + 1); restored.push(OsStr::new(\"@\")); restored.push(path); restored } }); }", expect=1,
+             why="every command-line word is first parsed as a possible @argfile, which strips a leading `@`; the words after `--` (the command) are not argfiles and must be handed on byte for byte, `@` included (string code outside the extraction subset; exercised by replay/cli_argv.py with `@`-prefixed arguments)"),
         dict(id="C18.structure.the_environment_shell_is_read_once", file="crates/cli/src/config.rs", count_in_fn="interpret_command_args", pattern="var(\"SHELL\")", expect=1, why="see above"),
     ],
     extract=[
